@@ -596,6 +596,31 @@ Proof.
   reflexivity.
 Qed.
 
+(* the reward / history pages partition the epochs last..0: each epoch exactly once, newest first, as soon as k*size covers them *)
+Lemma epoch_pages_partition last size k :
+  0 <= last < two63 / 2 -> 0 < size <= RpcMaxPageSize -> Z.of_nat k < two32 -> last + 1 <= Z.of_nat k * size ->
+  concat (map (fun i => epoch_page last (Z.of_nat i) size) (seq 0 k)) = rev (zseq 0 (Z.to_nat (last + 1))).
+Proof.
+  intros Hl Hs Hk Hcov.
+  set (h := last + 1).
+  assert (Hh : 0 < h < two63 - 1) by (subst h; unfold two63 in *; lia).
+  assert (Hshift : forall a n, map (fun x => x - 1) (zseq a n) = zseq (a - 1) n).
+  { intros a n. unfold zseq. rewrite map_map. apply map_ext. intros; lia. }
+  assert (Hmm : forall (f : nat -> list Z) l,
+             map (fun i => map (fun x => x - 1) (f i)) l = map (map (fun x => x - 1)) (map f l))
+    by (intros; rewrite map_map; reflexivity).
+  rewrite (map_ext_in _ (fun i => map (fun x => x - 1) (heights_of (acc_by_page h (Z.of_nat i) size)))).
+  - rewrite Hmm, <- concat_map, acc_pages_partition by (try assumption; subst h; lia).
+    rewrite map_rev, Hshift. subst h. replace (1 - 1) with 0 by lia. reflexivity.
+  - intros i Hin. apply in_seq in Hin.
+    rewrite acc_by_page_exact by (try assumption; unfold two32 in *; lia). unfold heights_of. cbn [fst snd].
+    rewrite epoch_page_exact by (unfold in_u32, two32 in *; lia).
+    destruct (h <=? Z.of_nat i * size) eqn:E.
+    + replace (last <? Z.of_nat i * size) with true by (subst h; lia). reflexivity.
+    + replace (last <? Z.of_nat i * size) with false by (subst h; lia).
+      unfold desc_page. rewrite map_rev, Hshift. f_equal. subst h. f_equal; lia.
+Qed.
+
 Lemma epoch_page_u32_wrap_refuted :
   exists last index size, 0 <= last /\ in_u32 index /\ 0 < size <= RpcMaxPageSize /\ last < index * size /\
     epoch_page_u32 last index size <> [].
